@@ -1122,3 +1122,30 @@ Proof.
     destruct (walk_sound _ _ _ _ Wd Hin) as (suf & Es & G & _ & _). cbn [app] in Es. subst suf.
     apply (Cpl (segs ++ rel) n'); [|exact Sc]. now rewrite geto_app_local, Hg.
 Qed.
+
+(** * The hypotheses are not contradictory: a (toy) codec family satisfying the laws *)
+Definition toy_ext : ext :=
+  {| x_href_enc := fun p => p;
+     x_href_dec := fun s => Some s;
+     x_quote := fun t => String """"%char t;
+     x_unquote := fun s => match s with String _ r => Some r | EmptyString => None end;
+     x_time_fmt := fun t => dec (Z.to_N (t_sec t + 62167219200));
+     x_time_parse := fun s => match parse_size s with
+                              | Some n => Some {| t_sec := Z.of_N n - 62167219200; t_ns := 0 |}
+                              | None => None
+                              end;
+     x_text := fun s => s;
+     x_mime_ext := fun _ => "" |}.
+
+Lemma codec_laws_satisfiable : codec_laws toy_ext /\ (forall p, x_text toy_ext (x_mime_ext toy_ext p) = x_mime_ext toy_ext p).
+Proof.
+  split; [constructor|reflexivity]; cbn [toy_ext x_href_enc x_href_dec x_quote x_unquote x_time_fmt x_time_parse x_text].
+  - reflexivity.
+  - intros t. now exists t.
+  - reflexivity.
+  - intros t W Z. unfold wf_time in W. rewrite Z in W. cbn [orb] in W.
+    apply andb_true_iff in W as [W _]. apply andb_true_iff in W as [W1 W2].
+    apply Z.leb_le in W1. apply Z.ltb_lt in W2.
+    rewrite parse_size_dec by lia. unfold to_second. f_equal. f_equal. lia.
+  - reflexivity.
+Qed.
